@@ -349,6 +349,110 @@ def check(run, F, tier):
             r7.violation(kind + "|builder-only", "the v5_0::%s builder validates with %s but parse never applies it to a parsed list"
                          % (kind, sorted(x.split("::")[-1] for x in missing)), site="%s:%s" % (f["file"], f["line"]))
 
+    # ------------------------------------------------------------------ R8 / R9: canonical lengths
+    r8 = run.rule("C04-R8", "leaf decoders report consumed == encoded size of the value they return (only canonical encodings are accepted)", floor=3)
+    LEAVES = [("mqtt::packet::variable_byte_integer::VariableByteInteger::decode_stream", "mqtt::packet::variable_byte_integer::DecodeResult"),
+              ("mqtt::packet::mqtt_string::MqttString::decode", "std::result::Result"),
+              ("mqtt::packet::mqtt_binary::MqttBinary::decode", "std::result::Result")]
+    for lf, radt in LEAVES:
+        key = panics.short_fn(lf)
+        if lf not in F.fns:
+            r8.violation(key, "leaf decoder %s not found (anchor lost)" % lf)
+            continue
+        ex = explore.Explorer(F, inline_pred=inl)
+        ps = ex.run(lf)
+        exp = lambda t, ex=ex: conn.expand_all(ex.interned_rev, t)
+        lin = linear.Lin(exp)
+        nok = 0
+        bad = None
+        undec = None
+        for p in ps:
+            if p.kind != "return" or not (p.ret and p.ret[0] == "agg" and p.ret[1] == radt and p.ret[2] == "Ok"):
+                continue
+            ops = p.ret[3]
+            if len(ops) == 1 and ops[0][0] == "tup":
+                ops = ops[0][1]
+            if len(ops) != 2:
+                undec = "Ok payload is not (value, consumed)"
+                continue
+            val, cons = exp(ops[0]), ops[1]
+            nok += 1
+            size = None
+            if val[0] == "agg" and len(val[3]) == 1 and val[3][0][0] == "vec":
+                # byte container built on the path: size() must be the length of that vector (checked on size()'s own body)
+                sfn = F.fns.get(val[1] + "::size")
+                okb = False
+                if sfn is not None:
+                    exs = explore.Explorer(F, inline_pred=inl)
+                    rets = [q.ret for q in exs.run(sfn["path"]) if q.kind == "return"]
+                    okb = bool(rets) and all(r[0] == "sym" and r[1][0] == "call" and r[1][1].endswith("::len") and
+                                             repr(r[1][2][0]) == repr(("sym", ("field", ("init", ("self",), ()), 0))) for r in rets)
+                if not okb:
+                    undec = "size() of %s is not the length of its byte vector in this configuration" % val[1].split("::")[-1]
+                    continue
+                size = ({}, 0)
+                for it in val[3][0][1]:
+                    if it[0] != "slice":
+                        size = None
+                        break
+                    src = it[1]
+                    size = linear.lin_add(size, lin.len_of(("sym", src[1][1]) if (src[0] == "loc" and src[1][0] == "D" and not src[2]) else
+                                                           (("ref", src[1], src[2]) if src[0] == "loc" else src)))
+            elif val[0] == "sym":
+                # opaque value: its size() as observed on this path (a `v.size()` call whose receiver is this value)
+                for e in p.effects:
+                    if e[0] == "call" and e[1].endswith("::size") and e[3] and repr(exp(e[3][0])) == repr(val) and e[4][0] == "sym":
+                        size = lin.of_value(e[4])
+                        break
+                if size is None:
+                    bad = (p, "accepts without relating the number of bytes consumed to the size of the value it returns")
+                    continue
+            if size is None:
+                undec = "value shape not understood"
+                continue
+            q = linear.lin_add(lin.of_value(cons), size, -1)
+            facts = lin.facts_of_path(p)
+            if not (linear.entails(facts, q) and linear.entails(facts, linear.lin_scale(q, -1))):
+                bad = (p, "consumed (%s) is not proved equal to the encoded size of the returned value" % conn.short(cons)[:80])
+        if bad:
+            r8.violation(key, "%s %s: an encoding that is longer than the value's own encoding is accepted (e.g. a non-minimal variable byte "
+                         "integer), so a packet parsed from it reports a size different from its serialisation" % (key, bad[1]),
+                         conn.path_summary(bad[0]), site="%s:%s" % (F.fns[lf]["file"], F.fns[lf]["line"]))
+        elif nok == 0:
+            r8.violation(key, "%s has no accepting path (anchor lost)" % key)
+        elif undec:
+            r8.note("%s: not decided in this configuration: %s" % (key, undec))
+            r8.ok(key + "|undecided", undec)
+        else:
+            r8.ok(key, {"accepting_paths": nok})
+
+    r9 = run.rule("C04-R9", "an accepted packet's Remaining Length (and property lengths) equal what its serialiser emits, given canonical leaves", floor=24)
+    run.assumptions.append("A-LEAF: Properties::parse / Property::parse / SubEntry parse report consumed == size of what they return "
+                           "(their loops are not decided; the VBI / string / binary leaves they rest on are C04-R8)")
+    import lenacct
+    acct = lenacct.Acct(F, consumed_facts)
+    for ver, kind, pfn in lenacct.parsers(F):
+        key = "%s::%s" % (ver, kind)
+        try:
+            rec = acct.run(ver, kind, pfn, parser=True)
+        except Exception as e:  # noqa
+            r9.violation(key + "|explore", "cannot analyse %s: %r" % (pfn, e))
+            continue
+        fobj = F.fns[pfn]
+        if rec["diff"]:
+            d = rec["diff"][0]
+            r9.violation(key, "%s::%s::parse: the Remaining Length it stores counts [%s] which the serialiser does not emit, and misses [%s]: size() of an accepted packet "
+                         "differs from the length of its serialisation" % (ver, kind, d.get("only_in_build", d["build"]), d.get("only_serialised", d["serialised"])),
+                         d, site="%s:%s" % (fobj["file"], fobj["line"]))
+        elif rec["prop_diff"]:
+            d = rec["prop_diff"][0]
+            r9.violation(key, "%s::%s::parse: a property-length field holds %s but the list serialised after it has %s" % (ver, kind, d["length"], d["list"]),
+                         d, site="%s:%s" % (fobj["file"], fobj["line"]))
+        elif rec["ok"]:
+            r9.ok(key, {"paths": rec["ok"], "leaves": sorted(rec.get("leaf_used", []))})
+        else:
+            r9.note("%s: not decided (%s)" % (key, sorted(set(rec["undecided"]))[:2]))
+
     # ------------------------------------------------------------------ R2
     r2 = run.rule("C04-R2", "every loop in a decoder terminates: iterator-driven, or a cursor that strictly increases towards the input length", floor=10)
     for path, f in sorted(fns.items()):
